@@ -39,10 +39,20 @@ type TxSpec struct {
 	Msgs []MsgSpec `json:"msgs"`
 }
 
+// EvSpec: one Misbehavior entry (duplicate vote) of a block: consensus key id, infraction height, infraction time
+// (seconds since genesis), the voting power CometBFT attributes to the validator.
+type EvSpec struct {
+	Cons   int   `json:"cons"`
+	Height int64 `json:"height"`
+	Time   int64 `json:"time"`
+	Power  int64 `json:"power"`
+}
+
 type BlockSpec struct {
-	Dt     int64    `json:"dt"`
-	Absent []int    `json:"absent,omitempty"` // consensus key ids that do not sign the previous block
-	Txs    []TxSpec `json:"txs,omitempty"`
+	Dt       int64    `json:"dt"`
+	Absent   []int    `json:"absent,omitempty"`   // consensus key ids that do not sign the previous block
+	Evidence []EvSpec `json:"evidence,omitempty"` // double-sign evidence delivered with the block
+	Txs      []TxSpec `json:"txs,omitempty"`
 }
 
 type History struct {
@@ -103,7 +113,11 @@ func (b BlockSpec) Sx() string {
 	for i, t := range b.Txs {
 		txs[i] = t.Sx()
 	}
-	return fmt.Sprintf("(Build_block %d %s %s)", b.Dt, sxList(abs), sxList(txs))
+	evs := make([]string, len(b.Evidence))
+	for i, e := range b.Evidence {
+		evs[i] = fmt.Sprintf("(Build_evidence %d %d %d %d)", e.Cons, e.Height, e.Time, e.Power)
+	}
+	return fmt.Sprintf("(Build_block %d %s %s %s)", b.Dt, sxList(abs), sxList(evs), sxList(txs))
 }
 
 func (g Genesis) Sx() string {
